@@ -187,11 +187,13 @@ def replaceMonth (x : DateTime) (m : Int) : Option DateTime :=
     some ⟨⟨x.date.y, m.toNat, x.date.d⟩, x.secs⟩
   else none
 
-/-- `number` = `parse_chinese_written_number_to_value(number_str)` (−1 when the integer extractor finds nothing);
-`before` / `after` = the suffix after the duration starts with a match of `BeforeRegex` / `AfterRegex` (before is
-tested first). Days and weeks are arithmetic on the reference; for months and years the code calls
-`reference.replace(month=reference.month ∓ 1)` / `replace(year=reference.year ∓ 1)` — **the number is not used**. -/
-def agoLater (ref : DateTime) (u : AUnit) (number : Int) (before after : Bool) : DRes :=
+/-- `parser_duration_with_ago_and_later` as it was BEFORE `fix: Chinese 'N 个月前 / 年后' shift by N months / years`
+(findings/zhdt/zh-ago-month-year-number-ignored.diff). `number` = `parse_chinese_written_number_to_value(number_str)`
+(−1 when the integer extractor finds nothing); `before` / `after` = the suffix after the duration starts with a match of
+`BeforeRegex` / `AfterRegex` (before is tested first). Days and weeks are arithmetic on the reference; for months and
+years the pre-fix code called `reference.replace(month=reference.month ∓ 1)` / `replace(year=reference.year ∓ 1)` —
+**the number was not used**. Kept as the labelled pre-fix variant (regression witness `zh_months_years_prefix_regression`). -/
+def agoLaterPreFix (ref : DateTime) (u : AUnit) (number : Int) (before after : Bool) : DRes :=
   let fin (o : Option DateTime) : DRes :=
     match o with
     | none => .raises
@@ -212,9 +214,10 @@ def agoLater (ref : DateTime) (u : AUnit) (number : Int) (before after : Bool) :
     | .other => .noResult
   else .noResult
 
-/-- The repaired variant proposed for the finding `zh-ago-month-year-number-ignored`: months and years go through
-`datedelta(months=∓number)` / `datedelta(years=∓number)` like the C# original's `AddMonths` / `AddYears`. -/
-def agoLaterFixed (ref : DateTime) (u : AUnit) (number : Int) (before after : Bool) : DRes :=
+/-- `parser_duration_with_ago_and_later` of the repaired code: months and years go through
+`reference + datedelta(months=∓number)` / `datedelta(years=∓number)` (like the C# original's `AddMonths` / `AddYears`);
+days and weeks as before. -/
+def agoLater (ref : DateTime) (u : AUnit) (number : Int) (before after : Bool) : DRes :=
   let fin (o : Option DateTime) : DRes :=
     match o with
     | none => .raises
@@ -223,12 +226,12 @@ def agoLaterFixed (ref : DateTime) (u : AUnit) (number : Int) (before after : Bo
     match u with
     | .MON => fin (addDelta ref 0 (-number) 0)
     | .Y => fin (addDelta ref (-number) 0 0)
-    | u => agoLater ref u number true after
+    | u => agoLaterPreFix ref u number true after
   else if after then
     match u with
     | .MON => fin (addDelta ref 0 number 0)
     | .Y => fin (addDelta ref number 0 0)
-    | u => agoLater ref u number false true
+    | u => agoLaterPreFix ref u number false true
   else .noResult
 
 /-! ## year conversion (`convert_chinese_year_to_number`, `_convert_year`) -/
@@ -336,25 +339,34 @@ def oneWord (ref : DateTime) (src : Str) (monthGroup : Option Nat) : Periods.Res
 
 /-- `monthNamed` = `month_of_year[month_str]` when the `month` group matched; otherwise the `relmonth` group matched and
 `relSwift` = `get_swift_day_or_month(rel)`. `isFut` = `is_future(month_str)` of whichever string was used.
-`yearStr` = `int(year_str)` when the `year` group matched. The month window of a relative month is the code's own
-(`< 0 → 0`, `> 11 → 11`: a port of 0-based month arithmetic onto 1-based months). -/
-def simpleCases (ref : DateTime) (beginDay endDay : Nat) (monthNamed : Option Nat) (relSwift : Int) (isFut : Bool)
-    (yearStr : Option Int) : Periods.Res :=
+`yearStr` = `int(year_str)` when the `year` group matched.
+`fixed = false` is the code BEFORE `fix: Chinese 'this/next/last month D1 to D2' stays in that month`
+(findings/zhdt/zh-simple-cases-relative-month.diff): the month window of a relative month was `< 0 → 0`, `> 11 → 11` (a port
+of 0-based month arithmetic onto 1-based months) and `no_year` was set for a relative month too, so `generate_dates` moved
+the values into another year than the (definite) TIMEX. `fixed = true`: window `< 1 → December of the year before`,
+`> 12 → January of the year after`, and `no_year` only for a named month without a year. -/
+def simpleCasesG (fixed : Bool) (ref : DateTime) (beginDay endDay : Nat) (monthNamed : Option Nat) (relSwift : Int)
+    (isFut : Bool) (yearStr : Option Int) : Periods.Res :=
   let y0 : Int := ref.date.y
   let (year0, month) : Int × Nat :=
     match monthNamed with
     | some m => (y0, m)
     | none =>
       let m : Int := (ref.date.m : Int) + relSwift
-      if m < 0 then (y0 - 1, 0) else if m > 11 then (y0 + 1, 11) else (y0, m.toNat)
+      if fixed then (if m < 1 then (y0 - 1, 12) else if m > 12 then (y0 + 1, 1) else (y0, m.toNat))
+      else (if m < 0 then (y0 - 1, 0) else if m > 11 then (y0 + 1, 11) else (y0, m.toNat))
   let year : Int := yearStr.getD year0
   let inputYear := yearStr.isSome
-  let noYear := !inputYear
+  let noYear := if fixed then !inputYear && monthNamed.isSome else !inputYear
   let ly : Option Int := if inputYear || isFut then some year else none
   let fb := generateDates noYear ref year month beginDay
   let fe := generateDates noYear ref year month endDay
   .ok ([40] ++ Periods.luis ly month beginDay ++ [44] ++ Periods.luis ly month endDay ++ [44, 80] ++
         Periods.intStr ((endDay : Int) - beginDay) ++ [68, 41]) fb.1 fe.1 fb.2 fe.2
+
+/-- the repaired code -/
+def simpleCases := simpleCasesG true
+def simpleCasesPreFix := simpleCasesG false
 
 /-! ## `__parse_common_duration_with_unit` (前3天, 未来两周, 过去3个月, 后三年) -/
 
@@ -406,13 +418,24 @@ def yearAndMonth (year0 : Int) (monthVal : Nat) : Periods.Res :=
   | none => .raises
   | some e => .ok (fmt04 year ++ [45] ++ pad 2 month) (Periods.mk year month 1) e (Periods.mk year month 1) e
 
-/-- `_parse_quarter`: `q` = `cardinal_map[cardinal]`. The end is `safe_create_from_min_value(year, q * 3 + 1, 1)`
-— month 13 for the fourth quarter. -/
-def zhQuarter (year0 : Int) (q : Nat) : Periods.Res :=
+/-- `_parse_quarter`: `q` = `cardinal_map[cardinal]`. `fixed = false` is the code BEFORE `fix: the fourth quarter ends on
+1 January of the next year` (findings/zhdt/zh-quarter-4-end.diff): the end was `safe_create_from_min_value(year, q * 3 + 1, 1)`
+— month 13 for the fourth quarter, i.e. `0001-01-01`. `fixed = true`: `end = begin + datedelta(months=3)`. -/
+def zhQuarterG (fixed : Bool) (year0 : Int) (q : Nat) : Periods.Res :=
   let year := adjust9020 year0
   let b := Periods.mk year (q * 3 - 2) 1
-  let e := Periods.mk year (q * 3 + 1) 1
-  .ok ([40] ++ Periods.luisOf b ++ [44] ++ Periods.luisOf e ++ [44, 80, 51, 77, 41]) b e b e
+  let tx (e : DateTime) : Str := [40] ++ Periods.luisOf b ++ [44] ++ Periods.luisOf e ++ [44, 80, 51, 77, 41]
+  if fixed then
+    match addDelta b 0 3 0 with
+    | none => .raises
+    | some e => .ok (tx e) b e b e
+  else
+    let e := Periods.mk year (q * 3 + 1) 1
+    .ok (tx e) b e b e
+
+/-- the repaired code -/
+def zhQuarter := zhQuarterG true
+def zhQuarterPreFix := zhQuarterG false
 
 /-- `_parse_season`: only a TIMEX (`f'{year:02d}-{season}'` when a year is present, otherwise none). -/
 def zhSeasonTimex (year0 : Option Int) (season : Str) : Str :=
